@@ -58,10 +58,11 @@ def willSwitch (w : W) : Bool := decide (w.it.cur.pos ≥ w.it.cur.rows.length) 
 /-- Iter.PageState -/
 def pageState (w : W) : Bytes := w.it.cur.pagingState
 
-/-- the trigger in Iter.Scan; `c` is the page AFTER the row was delivered (`c.pos - 1` = position of that row) -/
+/-- the trigger in Iter.Scan; `c` is the page AFTER the row was delivered: the test `iter.pos >= iter.next.pos`
+    was made with the position of that row, `c.pos - 1` -/
 def trigger (api : Api) (c : Iter) (a : Async) : Async :=
   match api, c.next with
-  | .scan, some n => if c.pos - 1 ≥ n.pos ∧ a = .idle then .launched else a
+  | .scan, some n => if n.pos < c.pos ∧ a = .idle then .launched else a
   | _, _ => a
 
 /-- this call will leave the current page (`*iter = *iter.next.fetch()`): the new page has fresh Onces -/
